@@ -37,8 +37,8 @@ had to be strengthened for changes the checks missed at first. Three full rounds
 m5/m6, m7/m8 per property; later rounds were told the titles of the earlier changes and asked for harder
 ones, in particular for interactions between the event-loop glue and the core): the quick tier
 missed 8 of 40 in round 1, 14 of 41 in round 2, 15 of 41 in round 3 and 10 of 20 in round 4 before it was
-strengthened; three round-4 changes are still not caught and are kept as such (`C05-m8`, `C19-m8`,
-`C20-m8`: their `meta.json` and the last column say why) -
+strengthened; two round-4 changes are still not caught and are kept as such (`C19-m8`, `C20-m8`: their
+`meta.json` and the last column say why) -
 new engines (W for eight more properties, S, X, R), new fault kinds (lost REG2 replies, client re-bind,
 bind failures and a stalled subscriber on the real loop, a stalled reader with large events on the
 control socket, deep bursts), and monitors made independent of implementation state they had been
